@@ -420,8 +420,9 @@ def _assigns_on_all_paths(stmts: List[ast.stmt], targets) -> bool:
 
 def is_helper(fn: ast.FunctionDef) -> bool:
     """a private function that is not an anchor of the rule set: candidate for inlining"""
+    # any decorator other than @staticmethod changes what a call does (caching, properties, wrappers): such a function is never inlined
     return fn.name.startswith("_") and not fn.name.startswith("__") and fn.name not in KNOWN_PRIVATE and not _is_njit(fn) and \
-        not any(ast.unparse(d).split(".")[-1] in ("property", "abstractmethod", "setter", "classmethod") for d in fn.decorator_list)
+        all(ast.unparse(d).split(".")[-1] == "staticmethod" for d in fn.decorator_list)
 
 
 def drop_unreferenced_helpers(trees: List[ast.Module]) -> List[str]:
